@@ -190,7 +190,7 @@ impl Property for C03 {
     type Case = Case;
     const ID: &'static str = "C03";
     fn cases(tier: Tier) -> u64 {
-        tier.pick(8_000, 300_000)
+        tier.pick(16_000, 400_000)
     }
     fn strategy(tier: Tier) -> BoxedStrategy<Case> {
         let n = tier.pick(40usize, 100usize);
@@ -199,7 +199,13 @@ impl Property for C03 {
                 let np = cfg.n_peers;
                 (Just(cfg), wire_gen::ops_strategy(np, wire_gen::Mix::Replay, n))
             })
-            .prop_map(|(cfg, ops)| Case { cfg, ops })
+            .prop_map(|(mut cfg, ops)| {
+                // in a third of the cases peer 1 is behind NAT (its record advertises another socket)
+                if cfg.seqs.first().map(|s| s % 3 == 0).unwrap_or(false) {
+                    cfg.nat_peers = vec![1];
+                }
+                Case { cfg, ops }
+            })
             .boxed()
     }
     fn run(case: &Case) -> CaseReport {
